@@ -115,6 +115,11 @@ def generate(rng, tier):
         (["rate = 5\nrate = 2 hours * 3 hours\nrate + 1", "rate * 2"], [["5", None, "6"], ["10"]]),
         # texts of growing line counts: no line of the longer text is skipped
         (["a = 1", "b = 2\nc = 3\nb + c", "a + b + c\na\nb\nc\n10 * c"], [["1"], ["2", "3", "5"], ["6", "1", "2", "3", "30"]]),
+        # hundreds of lines that fail to parse (unclosed and empty parentheses, dangling operators), then ordinary lines:
+        # whatever was evaluated before, on this session, on this calculator or on any other, does not change them
+        (["\n".join(["(", "2 * (", "()", "(1 + )", "((1)", "3 +", ")"] * 30), "(2 + 3) * 4\n((1 + 2)) * 3\n2 * (3 + 4) * 5",
+          "\n".join(["(", "()"] * 80) + "\n(2 + 3) * 4"],
+         [[None] * 210, ["20", "9", "70"], [None] * 160 + ["20"]]),
         # texts of shrinking line counts: every line of the NEW text is evaluated exactly once, nothing of the old one
         (["total = 1\ntotal = total + 50\ntotal", "total", "", "total + 1"], [["1", "51", "51"], ["51"], [None], ["52"]]),
     ]
